@@ -145,6 +145,13 @@ def record_visual(chk, name, kind, seed, vis_kind="euclid", vis_thr=None, min_vo
 
 def _validate_v(args):
     i, trace, workdir = args
+    try:
+        head = open(trace).read(4000)
+    except OSError:
+        head = ""
+    if '"ev": "PANIC"' in head and '"v"' not in head.split("\n", 1)[0]:
+        # the recorder process died (already reported as r2:record:crash): the placeholder is not a visual trace
+        return i, False, 0, 0, "the recorder process died: no trace to validate", [0, 0, 0, 0, 0, 0]
     ok, r, rej = vlib.validate_trace(T / "VisualTrace.tla", T / "vtrace.cfg", trace, f"vt-{i}", workdir, timeout=900)
     stats = [0, 0, 0, 0, 0, 0]
     try:
